@@ -144,6 +144,7 @@ static void check_for_keyword(struct instr *instr_buffer, char *all_opd,
   }
 
   if (strstr(pointer, "qword") == pointer) {
+    instr_buffer->keyword.is_qword = true;
     clearstring(pointer, DWORD_LEN);
     return;
   }
